@@ -16,6 +16,7 @@
 -/
 import MajoranaVerif.Proofs.Mvp4Run
 import MajoranaVerif.Proofs.Mvp5Run
+import MajoranaVerif.Proofs.Mvp60SlRun
 open GoInt Model Model.Mvp4 Model.Seq Proofs.Mvp4
 
 namespace Props.C04
@@ -137,5 +138,56 @@ example : ∃ s0, Model.Mvp5.init exCtx = .ok s0 ∧ Proofs.Mvp5.Rel5 exApp5 s0 
   obtain ⟨s0, h1, h2, _⟩ := Proofs.Mvp5.init5_rel exApp5 exCtx
     ⟨rfl, rfl, fun r => by simp [exCtx, GoMap.get1, GoMap.get, GoMap.find?]⟩
   exact ⟨s0, h1, h2⟩
+
+end Props.C04
+
+/-! ## MVP-6.0 (package R60): the scoreboards of the first superscalar variant
+
+`Proofs.Mvp60Sl.Back ctx W X a`: the register file plus the results `W` queued on the write bus (applied in order) is the
+register file of the unpipelined machine in state `a`; the pending-write scoreboard counts every result in flight (`W` and
+the issued runners `X`); no issued runner reads a register that a result in flight or an older issued runner writes. -/
+namespace Props.C04
+
+/-- **issue keeps the scoreboard invariant (MVP-6.0).**  A runner that `IsDataHazard3` lets through (no RAW/WAW/WAR against
+the scoreboards) can be appended to the issued runners. -/
+theorem mvp60_issue_keeps_interlock (ctx : Model.Context) (W : List Model.Mvp60.ExecCtx) (X : List Model.Mvp60.Runner) (a : Arch)
+    (hb : Proofs.Mvp60Sl.Back ctx W X a) (r : Model.Mvp60.Runner) (hz : Model.Mvp60.isDataHazard3 ctx r.instr = false) :
+    Proofs.Mvp60Sl.Back (Model.Mvp60.addPendingRegisters ctx r.instr) W (X ++ [r]) a :=
+  hb.issue r hz
+
+/-- **the hazard interlock gives sequential operands (MVP-6.0).**  The registers the oldest issued runner reads have, in the
+register file of the machine, the values they have in the unpipelined machine — although up to four older results are still
+queued on the write bus. -/
+theorem mvp60_hazard_interlock_sequential_operands (ctx : Model.Context) (W : List Model.Mvp60.ExecCtx) (x : Model.Mvp60.Runner)
+    (X : List Model.Mvp60.Runner) (a : Arch) (hb : Proofs.Mvp60Sl.Back ctx W (x :: X) a) :
+    ∀ r ∈ x.instr.readRegisters, r ≠ 0 → GoMap.get1 ctx.Registers r = GoMap.get1 a.ctx.Registers r :=
+  hb.sameRegs.regs
+
+/-- **an execute unit executes exactly the sequential step (MVP-6.0, straight-line programs).**  Running the oldest issued
+runner against the machine's register file yields the result of the next step of the unpipelined machine; with that result
+appended to the write bus the invariant holds for the next architectural state; a defined error is the unpipelined machine's. -/
+theorem mvp60_executes_exactly_the_sequential_step (app : App) (ctx : Model.Context) (W : List Model.Mvp60.ExecCtx)
+    (x : Model.Mvp60.Runner) (X : List Model.Mvp60.Runner) (a : Arch) (n0 : Nat)
+    (hb : Proofs.Mvp60Sl.Back ctx W (x :: X) a) (hsm : app.instrs.length < 250) (hpc : a.pc = Proofs.Mvp60Sl.pcOf n0)
+    (hx : Proofs.Mvp60Sl.RunnerOk app x n0) (hsl : Model.Mvp60.slInstr x.instr = true) (hnf : fwdOf x.instr = {}) :
+    (∀ e, x.instr.run ctx app.labels x.pc [] 0#32 = .ok e →
+      ∃ a', (∃ c, stepArch Proofs.Mvp4.dc app a = .next a' c) ∧ a'.pc = Proofs.Mvp60Sl.pcOf (n0 + 1) ∧
+        Proofs.Mvp60Sl.Back ctx (W ++ [Proofs.Mvp60Sl.ecOf x e]) X a' ∧
+        e.Return = false ∧ e.MemoryChange = false ∧ e.PcChange = false) ∧
+    (∀ msg, x.instr.run ctx app.labels x.pc [] 0#32 = .error (.err msg) → ∃ c, stepArch Proofs.Mvp4.dc app a = .halt .err c) :=
+  hb.execute hsm hpc hx hsl hnf
+
+/-- **a write unit keeps the architectural state (MVP-6.0).**  Writing the oldest queued result to the register file and
+releasing its scoreboard entries leaves the invariant — for the SAME architectural state. -/
+theorem mvp60_write_unit_keeps_architectural_state (ctx : Model.Context) (ec : Model.Mvp60.ExecCtx) (W : List Model.Mvp60.ExecCtx)
+    (X : List Model.Mvp60.Runner) (a : Arch) (hb : Proofs.Mvp60Sl.Back ctx (ec :: W) X a) :
+    Proofs.Mvp60Sl.Back (Model.Mvp60.deletePendingRegisters
+      (if ec.execution.RegisterChange then writeRegister ctx ec.execution else ctx) ec.readRegisters ec.writeRegisters) W X a :=
+  hb.writeback
+
+/-- Non-vacuity: the invariant holds initially (empty write bus, nothing issued, clean scoreboards) -/
+example : Proofs.Mvp60Sl.Back ({ Memory := List.replicate 64 0#8 } : Model.Context) [] [] ⟨{ Memory := List.replicate 64 0#8 }, 0#32⟩ :=
+  ⟨rfl, rfl, rfl, rfl, rfl, rfl, (fun _ h => by cases h), (fun r _ => Int.le_refl _), (fun _ h => by cases h), List.Pairwise.nil,
+   (fun _ h => by cases h)⟩
 
 end Props.C04
